@@ -2648,6 +2648,19 @@ func (s *Store) fsmSnapshot() (fSnap raft.FSMSnapshot, retErr error) {
 		//
 		// A failed FULL snapshot is always retryable, since we're looking to capture
 		// the entire database. So return the error and Raft will retry.
+		//
+		// Any WAL files still staged by earlier incremental snapshots that were never
+		// persisted pre-date this new base. They must not be packaged with a later
+		// incremental snapshot, so discard them -- but only once it is certain that
+		// the next snapshot to reach the Snapshot Store will be a full one.
+		if fsutil.DirExists(s.walStagingDir) {
+			if err := s.snapshotStore.SetDueNext(snapshot.Full); err != nil {
+				return nil, err
+			}
+			if err := os.RemoveAll(s.walStagingDir); err != nil {
+				return nil, err
+			}
+		}
 		if meta, _, err := s.checkpointer.Checkpoint(nil, truncateTimeout); err != nil {
 			return nil, fmt.Errorf("checkpoint failed during full snapshot: %w", err)
 		} else if !meta.Success() {
@@ -2808,6 +2821,11 @@ func (s *Store) fsmRestore(rc io.ReadCloser) (retErr error) {
 	// fast-restart with it.
 	if err := fsutil.RemoveFile(s.cleanSnapshotPath); err != nil {
 		return fmt.Errorf("failed to remove clean snapshot file: %w", err)
+	}
+	// Likewise any WAL files staged by snapshots that were never persisted belong to
+	// the database being replaced, and must not be packaged with the next snapshot.
+	if err := os.RemoveAll(s.walStagingDir); err != nil {
+		return fmt.Errorf("failed to remove WAL staging directory: %w", err)
 	}
 	if err := verifhook.Hit("store.restore.after-fp-remove"); err != nil {
 		return err
